@@ -215,6 +215,9 @@ where
         let k = self.k;
         let p = P::k();
 
+        // interval lengths (at most 2k - p) are reported as u16
+        assert!(2 * k - p < 1 << 16);
+
         let find_min = |start, stop| {
             let mut min_pos = self.mp(start);
             let mut current = min_pos;
